@@ -82,7 +82,7 @@ class MocCompiler(SimpleBuildCommand):
             if isinstance(i, opts.include_dir):
                 flags.append('-I' + i.directory.path)
             elif isinstance(i, opts.define):
-                if i.value:
+                if i.value is not None:
                     flags.append('-D' + i.name + '=' + i.value)
                 else:
                     flags.append('-D' + i.name)
